@@ -428,12 +428,16 @@ def run_c12(ctx):
             if ra == "panic":
                 ctx.finding("crash/" + cls, "an ill-formed DSL crashes the compiler instead of being diagnosed", dict(rep, real=a))
                 continue
+            # the fault-free program has no diagnostic at all, so whatever is reported for this text is about the injected fault.
+            # The wording is the maintainers' to choose: a diagnostic AT the offending line counts whatever it says; the current
+            # wording is only used to recognise a diagnostic that was issued for the offence but at another line.
             want = faults.EXPECT_MSG[cls]
-            hit = [x for x in diags if want in x[2]]
+            at_line = [x for x in diags if x[0] == line]
+            hit = at_line or [x for x in diags if want in x[2]]
             if not hit:
                 ctx.finding("diag-missing/" + cls, "ill-formed DSL (%s at line %s) is accepted without a diagnostic naming the offence" % (cls, line), dict(rep, diags=diags))
                 continue
-            if not any(x[0] == line for x in hit):
+            if not at_line:
                 ctx.finding("diag-line/" + cls, "diagnostic names line %s, the offending declaration is at line %s" % ([x[0] for x in hit], line), dict(rep, diags=diags))
                 continue
             ctx.count("faults_diagnosed")
